@@ -62,6 +62,7 @@ def soc_holds(vals):
 
 
 KEXP = None
+PAIRING = False      # set by harnesses that need the K / K* pairing fact (robust counterparts over exp-cone sets)
 
 
 def exp_holds(a, b, c):
@@ -83,6 +84,10 @@ def exp_holds(a, b, c):
         for (a2, b2, c2, app2) in seen:
             cx.assume(SymBool(z3.Implies(z3.And(a2 == ta, c2 == tc, b2 <= tb, app2), app)))
             cx.assume(SymBool(z3.Implies(z3.And(a2 == ta, c2 == tc, tb <= b2, app), app2)))
+            if PAIRING:
+                # (p,q,r) in K  =>  (-r, q, -p-r) in K*  =>  its pairing with any (a,b,c) in K is >= 0   (M3)
+                cx.assume(SymBool(z3.Implies(z3.And(app, app2), -tc * a2 + tb * b2 - (ta + tc) * c2 >= 0)))
+                cx.assume(SymBool(z3.Implies(z3.And(app, app2), -c2 * ta + b2 * tb - (a2 + c2) * tc >= 0)))
         seen.append((ta, tb, tc, app))
         return SymBool(app)
     a, b, c = float(a), float(b), float(c)
